@@ -395,7 +395,10 @@ class MultiVector:
             return self
         keys_out, func = self._callable
         if kwargs:
-            args = [v for k, v in sorted(kwargs.items(), key=lambda x: x[0])]
+            names = [symbol.name for symbol in sorted(self.free_symbols, key=lambda x: x.name)]
+            if sorted(kwargs) != names:
+                raise TypeError(f'The keyword arguments {sorted(kwargs)} do not match the free symbols {names}.')
+            args = [kwargs[name] for name in names]
         values = func(args)
         return self.fromkeysvalues(self.algebra, keys_out, values)
 
